@@ -79,6 +79,7 @@ pub struct Features {
     pub mutation: bool,
     pub natives: bool,
     pub strings: bool,
+    pub types: bool,
     pub emit_rate: u64,
 }
 
@@ -98,6 +99,7 @@ impl Features {
             mutation: on(85),
             natives: on(65),
             strings: on(80),
+            types: on(60),
             emit_rate: 20 + rng.below(60),
         }
     }
@@ -115,6 +117,7 @@ impl Features {
             mutation: true,
             natives: true,
             strings: true,
+            types: true,
             emit_rate: 50,
         }
     }
@@ -389,7 +392,7 @@ impl<'r> Gen<'r> {
     }
 
     fn one(&mut self) {
-        let r = self.rng.below(52);
+        let r = self.rng.below(60);
         match r {
             0 | 1 => {
                 let n = self.fresh("i");
@@ -888,6 +891,85 @@ impl<'r> Gen<'r> {
                 let n = self.fresh("st");
                 self.stmts.push(format!("{n} = set([(i, str(i)) for i in range({})])", 17 + self.rng.below(10)));
                 self.bind(&n, Kind::Set);
+            }
+            50 | 51 if self.feat.types => {
+                // Type values (they can hold record / enum types), used by isinstance.
+                let n = self.fresh("ty");
+                let rt = self.of_kind(Kind::RecordType);
+                let e = match (self.rng.below(7), rt) {
+                    (0, _) => "list[int]".to_owned(),
+                    (1, _) => "dict[str, list[int | None]]".to_owned(),
+                    (2, _) => "typing.Callable[[int], str]".to_owned(),
+                    (3, _) => "tuple[int, ...]".to_owned(),
+                    (4, Some(r)) => format!("list[{r}] | None"),
+                    (5, Some(r)) => format!("dict[str, {r}]"),
+                    _ => "int | str | None".to_owned(),
+                };
+                self.stmts.push(format!("{n} = {e}"));
+                self.bind(&n, Kind::Other);
+                if let Some(v) = self.any_var() {
+                    let o = self.fresh("o");
+                    self.stmts.push(format!("{o} = [isinstance({v}, {n}), isinstance([1, 2], {n}), isinstance(None, {n})]"));
+                    self.bind(&o, Kind::List);
+                }
+            }
+            52 if self.feat.types && self.feat.records => {
+                // Record fields whose defaults are heap values (shared by every instance using them).
+                let t = self.fresh("Rd");
+                let lit = self.list_lit();
+                let cap = self.of_kind(Kind::List);
+                let d2 = match cap {
+                    Some(c) => format!("{{\"k\": {c}}}"),
+                    None => "{\"k\": [1]}".to_owned(),
+                };
+                self.stmts.push(format!("{t} = record(a = field(list, {lit}), b = field(dict, {d2}), c = field(typing.Any, ({lit}, \"s\" * 3)), n = int)"));
+                self.bind(&t, Kind::RecordType);
+                let r1 = self.fresh("r");
+                let r2 = self.fresh("r");
+                self.stmts.push(format!("{r1} = {t}(n = 1)"));
+                self.stmts.push(format!("{r2} = {t}(n = 2, a = [7])"));
+                self.bind(&r1, Kind::Other);
+                self.bind(&r2, Kind::Other);
+                let o = self.fresh("o");
+                self.stmts.push(format!("{o} = [{r1}.a, {r1}.b, {r2}.c, {r1} == {r2}]"));
+                self.bind(&o, Kind::List);
+            }
+            53 if self.feat.types => {
+                let n = self.fresh("ns");
+                let a = self.any_var().unwrap_or_else(|| "None".to_owned());
+                let lit = self.list_lit();
+                self.stmts.push(format!("{n} = namespace(a = {a}, b = {lit}, f = lambda x: [x, {lit}])"));
+                self.bind(&n, Kind::Other);
+                let o = self.fresh("o");
+                self.stmts.push(format!("{o} = [{n}.b, {n}.f(1), dir({n})]"));
+                self.bind(&o, Kind::List);
+            }
+            54 if self.feat.types => {
+                let n = self.fresh("fl");
+                let i = self.rng.range(1, 40);
+                self.stmts.push(format!("{n} = [{i} * 1.5, float({i}) / 3, {i} // 2.0, float(\"inf\"), 1e300 * 10, [0.1 + 0.2]]"));
+                self.bind(&n, Kind::List);
+            }
+            55 if self.feat.types => {
+                let n = self.fresh("rg");
+                let (a, b, c) = (self.rng.range(0, 9), self.rng.range(10, 80), self.rng.range(1, 7));
+                self.stmts.push(format!("{n} = [range({a}, {b}, {c}), range({b}, {a}, -{c}), range({a})]"));
+                self.bind(&n, Kind::List);
+                let o = self.fresh("o");
+                self.stmts.push(format!("{o} = [list({n}[0])[:3], {n}[1][1], len({n}[2]), 5 in {n}[0], \"abc\".elems(), list(\"añ😀\".codepoints())]"));
+                self.bind(&o, Kind::List);
+            }
+            56 | 57 if self.feat.types => {
+                // Type-annotated defs: parameter and return checks hold compiled types.
+                let f = self.fresh("tf");
+                let lit = self.list_lit();
+                let rt = self.of_kind(Kind::RecordType);
+                match (self.rng.below(3), rt) {
+                    (0, _) => self.stmts.push(format!("def {f}(x: int | str, y: list = {lit}) -> list:\n    return [x] + y")),
+                    (1, Some(r)) => self.stmts.push(format!("def {f}(x, r: {r} | None = None) -> list[typing.Any]:\n    return [x, r]")),
+                    _ => self.stmts.push(format!("def {f}(x: typing.Any, *a: int, k: dict[str, list] = {{\"d\": {lit}}}, **kw: str) -> tuple:\n    return (x, a, k, kw)")),
+                }
+                self.bind(&f, Kind::PureFunc1);
             }
             _ => {
                 self.emit_some();
